@@ -3,8 +3,9 @@
    Model: Model/C21.v (`glob`: Globber.Glob/glob/walkDir/shouldExcludeMatch/patternToMatcher/toRegexString of
    src/fs/glob.go; `glob_spec`: the documented semantics by path segments).
    Proofs: Proof/C21.v (matcher, path-string filters, witnesses), Proof/C21_paths.v (Join/Clean/Dir/Base on
-   component lists), Proof/C21_walk.v (the walk), Proof/C21_tree.v (exclude lemma, filter composition, tree level). *)
-From PlzV Require Import Base.Harness Model.C21 Proof.C21 Proof.C21_paths Proof.C21_walk Proof.C21_tree.
+   component lists), Proof/C21_walk.v (the walk), Proof/C21_tree.v (exclude lemma, filter composition, tree level),
+   Proof/C21_cache.v (the Globber as a state machine: the walkedDirs cache over a history of Glob calls). *)
+From PlzV Require Import Base.Harness Model.C21 Proof.C21 Proof.C21_paths Proof.C21_walk Proof.C21_tree Proof.C21_cache.
 
 Definition C21_statement : Prop :=
   (* for all BUILD file names, package paths, directory trees, include and exclude patterns (`*`, `?`, [class],
@@ -105,6 +106,67 @@ Theorem C21_partial_subpackage :
     is_in_directories (intercalate g) [intercalate d] = is_prefix_segs d g.
 Proof. exact in_directory_whole_components. Qed.
 Print Assumptions C21_partial_subpackage.
+
+(* The Globber is persisted over several glob() calls of one BUILD file; its walkedDirs cache is state.
+   Cache transparency: for ALL BUILD file names, file systems (any function from root paths to directory trees,
+   None = no such directory) and histories of Glob calls on one Globber - any packages, patterns, excludes and flags,
+   including calls that panic - every call returns exactly what the same call returns on a fresh Globber. *)
+Theorem C21_cache_transparent :
+  forall bfn fsys calls,
+    fst (run_calls bfn fsys [] calls) = map (fun c => fst (glob_st bfn fsys [] c)) calls.
+Proof. exact cache_transparent. Qed.
+Print Assumptions C21_cache_transparent.
+
+(* The invariant behind it, for every reachable state: each cached entry is what a walk of its root returns on this
+   file system, the keys are pairwise distinct and are roots some call of the history named; and from every state
+   with that invariant (not only the empty one) a further history is transparent, keeps the invariant and never
+   changes or drops an entry. *)
+Theorem C21_cache_invariant :
+  forall bfn fsys h,
+    let g := snd (run_calls bfn fsys [] h) in
+    (forall root w, cache_get root g = Some w -> option_map (walk_dir bfn root) (fsys root) = Some w)
+    /\ NoDup (map fst g)
+    /\ (forall k, In k (map fst g) -> In k (map (fun c => root_of (c_pkg c)) h))
+    /\ forall cs,
+         fst (run_calls bfn fsys g cs) = map (fun c => fst (glob_st bfn fsys [] c)) cs
+         /\ (forall root w, cache_get root g = Some w -> cache_get root (snd (run_calls bfn fsys g cs)) = Some w).
+Proof. exact reachable_invariant. Qed.
+
+(* A fresh Globber computes `glob`, so C21_partial holds for every call of every history: whatever was globbed
+   before on the same Globber (other packages, hidden=False before hidden=True, ...), a call outside every defect
+   class returns, as a set, exactly the documented selection. *)
+Theorem C21_partial_history :
+  forall bfn fsys h pkg tree incs excs hidden syms,
+    fsys (root_of (pkg_name pkg)) = Some tree ->
+    inputs_ok pkg tree incs excs = true -> tree_wf tree = true ->
+    defect_class bfn pkg tree incs excs hidden = None ->
+    exists out,
+      fst (glob_st bfn fsys (snd (run_calls bfn fsys [] h))
+             (Call (pkg_name pkg) (map render incs) (map render excs) hidden syms)) = Some out
+      /\ forall x, In x out <-> exists f, x = intercalate f /\ In f (glob_spec bfn (pkg_name pkg) tree incs excs hidden syms).
+Proof. exact history_correct. Qed.
+Print Assumptions C21_partial_history.
+
+(* Non-vacuity of the three: a five-call history on one Globber over a package with hidden files at two levels -
+   hidden=False first, then the same patterns with hidden=True (which returns the hidden files from the cached walk),
+   a second root, symlinks on, and a root that does not exist (panic, nothing cached): two roots end up cached and
+   every result is the fresh one; the walkDir protocol regenerated from the source keys the cache by every
+   parameter of walkDir; and a model of the seeded mutation (walk drops hidden entries unless asked, same key) is
+   NOT transparent on the first two calls. *)
+Example C21_cache_nonvacuous :
+  fst (run_calls h_bfn (fs_of h_tree) [] h_calls)
+  = [ Some [s "d/e.txt"; s "a.txt"];
+      Some [s "d/.b.txt"; s "d/e.txt"; s ".top.txt"; s "a.txt"];
+      Some [s "#c.txt#"; s ".b.txt"];
+      Some [s "d/.b.txt"];
+      None ]
+  /\ map fst (snd (run_calls h_bfn (fs_of h_tree) [] h_calls)) = [s "d"; s "."]
+  /\ Gen.GlobRegex.walkdir_lookup_key = Gen.GlobRegex.walkdir_params
+  /\ Gen.GlobRegex.walkdir_store_key = Gen.GlobRegex.walkdir_params
+  /\ fst (m3_glob1 h_bfn (fs_of h_tree) (s ".") (s "*.txt") true
+             (snd (m3_glob1 h_bfn (fs_of h_tree) (s ".") (s "*.txt") false [])))
+     <> fst (m3_glob1 h_bfn (fs_of h_tree) (s ".") (s "*.txt") true []).
+Proof. exact cache_witnesses. Qed.
 
 (* Non-vacuity: the witnesses are well-formed inputs on which the model was run ... *)
 Example C21_refuted_nonvacuous :
